@@ -23,24 +23,7 @@ _RAISE_FLAGS = [("raise_user_halt", 3), ("raise_recursion_depth_exceeded", 4), (
                 ("raise_varint_too_big", 12)]
 
 
-def _bind_flags(what, names, args, kwargs, defaults):
-    if len(args) > len(names):
-        raise TypeError("%s(): incompatible function arguments" % what)
-    bound = dict(defaults)
-    for n, a in zip(names, args):
-        bound[n] = a
-    for k, v in kwargs.items():
-        if k not in names or k in names[:len(args)]:
-            raise TypeError("%s(): incompatible function arguments" % what)
-        bound[k] = v
-    for n in names:
-        if n not in bound:
-            raise TypeError("%s(): incompatible function arguments" % what)
-    return bound
-
-
-_FLAG_NAMES = [n for n, _ in _RAISE_FLAGS]
-_FLAG_DEFAULTS = dict((n, True) for n in _FLAG_NAMES)
+_DEFAULT_INPUTS = {}       # py::arg("inputs") = py::dict()
 
 
 class _ForthMachine(object):
@@ -214,41 +197,34 @@ class _ForthMachine(object):
             return _ERRNAMES[err]
         raise ValueError("unrecognized ForthError: " + str(err) + _fn(92))
 
-    def begin(self, inputs=None):
-        if inputs is None:
-            inputs = {}
+    def begin(self, inputs=_DEFAULT_INPUTS):
         self._stage_inputs(inputs, "begin")
         _lib.rc(_lib.L.akp_forth_begin(self._h))
 
-    def step(self, *args, **kwargs):
-        flags = _bind_flags("step", _FLAG_NAMES, args, kwargs, _FLAG_DEFAULTS)
-        flags = dict((k, arg_bool(v, "step")) for k, v in flags.items())
+    def step(self, raise_user_halt=True, raise_recursion_depth_exceeded=True, raise_stack_underflow=True, raise_stack_overflow=True, raise_read_beyond=True, raise_seek_beyond=True, raise_skip_beyond=True, raise_rewind_beyond=True, raise_division_by_zero=True, raise_varint_too_big=True):
+        what = "step"
+        flags = dict(raise_user_halt=arg_bool(raise_user_halt, what), raise_recursion_depth_exceeded=arg_bool(raise_recursion_depth_exceeded, what), raise_stack_underflow=arg_bool(raise_stack_underflow, what), raise_stack_overflow=arg_bool(raise_stack_overflow, what), raise_read_beyond=arg_bool(raise_read_beyond, what), raise_seek_beyond=arg_bool(raise_seek_beyond, what), raise_skip_beyond=arg_bool(raise_skip_beyond, what), raise_rewind_beyond=arg_bool(raise_rewind_beyond, what), raise_division_by_zero=arg_bool(raise_division_by_zero, what), raise_varint_too_big=arg_bool(raise_varint_too_big, what))
         err = _lib.L.akp_forth_step(self._h)
         return self._maybe_throw(err, flags)
 
-    def run(self, *args, **kwargs):
-        names = ["inputs"] + _FLAG_NAMES
-        bound = _bind_flags("run", names, args, kwargs, dict(_FLAG_DEFAULTS, inputs=None))
-        inputs = bound.pop("inputs")
-        if inputs is None:
-            inputs = {}
-        flags = dict((k, arg_bool(v, "run")) for k, v in bound.items())
+    def run(self, inputs=_DEFAULT_INPUTS, raise_user_halt=True, raise_recursion_depth_exceeded=True, raise_stack_underflow=True, raise_stack_overflow=True, raise_read_beyond=True, raise_seek_beyond=True, raise_skip_beyond=True, raise_rewind_beyond=True, raise_division_by_zero=True, raise_varint_too_big=True):
+        what = "run"
+        flags = dict(raise_user_halt=arg_bool(raise_user_halt, what), raise_recursion_depth_exceeded=arg_bool(raise_recursion_depth_exceeded, what), raise_stack_underflow=arg_bool(raise_stack_underflow, what), raise_stack_overflow=arg_bool(raise_stack_overflow, what), raise_read_beyond=arg_bool(raise_read_beyond, what), raise_seek_beyond=arg_bool(raise_seek_beyond, what), raise_skip_beyond=arg_bool(raise_skip_beyond, what), raise_rewind_beyond=arg_bool(raise_rewind_beyond, what), raise_division_by_zero=arg_bool(raise_division_by_zero, what), raise_varint_too_big=arg_bool(raise_varint_too_big, what))
         self._stage_inputs(inputs, "run")
         _lib.rc(_lib.L.akp_forth_begin(self._h))
         err = _lib.L.akp_forth_resume(self._h)
         return self._maybe_throw(err, flags)
 
-    def resume(self, *args, **kwargs):
-        flags = _bind_flags("resume", _FLAG_NAMES, args, kwargs, _FLAG_DEFAULTS)
-        flags = dict((k, arg_bool(v, "resume")) for k, v in flags.items())
+    def resume(self, raise_user_halt=True, raise_recursion_depth_exceeded=True, raise_stack_underflow=True, raise_stack_overflow=True, raise_read_beyond=True, raise_seek_beyond=True, raise_skip_beyond=True, raise_rewind_beyond=True, raise_division_by_zero=True, raise_varint_too_big=True):
+        what = "resume"
+        flags = dict(raise_user_halt=arg_bool(raise_user_halt, what), raise_recursion_depth_exceeded=arg_bool(raise_recursion_depth_exceeded, what), raise_stack_underflow=arg_bool(raise_stack_underflow, what), raise_stack_overflow=arg_bool(raise_stack_overflow, what), raise_read_beyond=arg_bool(raise_read_beyond, what), raise_seek_beyond=arg_bool(raise_seek_beyond, what), raise_skip_beyond=arg_bool(raise_skip_beyond, what), raise_rewind_beyond=arg_bool(raise_rewind_beyond, what), raise_division_by_zero=arg_bool(raise_division_by_zero, what), raise_varint_too_big=arg_bool(raise_varint_too_big, what))
         err = _lib.L.akp_forth_resume(self._h)
         return self._maybe_throw(err, flags)
 
-    def call(self, *args, **kwargs):
-        names = ["name"] + _FLAG_NAMES
-        bound = _bind_flags("call", names, args, kwargs, _FLAG_DEFAULTS)
-        name = arg_string(bound.pop("name"), "call")
-        flags = dict((k, arg_bool(v, "call")) for k, v in bound.items())
+    def call(self, name, raise_user_halt=True, raise_recursion_depth_exceeded=True, raise_stack_underflow=True, raise_stack_overflow=True, raise_read_beyond=True, raise_seek_beyond=True, raise_skip_beyond=True, raise_rewind_beyond=True, raise_division_by_zero=True, raise_varint_too_big=True):
+        what = "call"
+        name = arg_string(name, what)
+        flags = dict(raise_user_halt=arg_bool(raise_user_halt, what), raise_recursion_depth_exceeded=arg_bool(raise_recursion_depth_exceeded, what), raise_stack_underflow=arg_bool(raise_stack_underflow, what), raise_stack_overflow=arg_bool(raise_stack_overflow, what), raise_read_beyond=arg_bool(raise_read_beyond, what), raise_seek_beyond=arg_bool(raise_seek_beyond, what), raise_skip_beyond=arg_bool(raise_skip_beyond, what), raise_rewind_beyond=arg_bool(raise_rewind_beyond, what), raise_division_by_zero=arg_bool(raise_division_by_zero, what), raise_varint_too_big=arg_bool(raise_varint_too_big, what))
         err = _lib.L.akp_forth_call(self._h, name)
         return self._maybe_throw(err, flags)
 
